@@ -1102,3 +1102,71 @@ Proof.
   - destruct (f x); [apply uss_skip|]; assumption.
   - destruct (f x); [apply uss_keep|]; assumption.
 Qed.
+
+(** * order across a replacement of the work connection *)
+
+Lemma order_step_replace c h st tr :
+  c_readq st = [] -> order_inv c h st tr ->
+  order_inv c (h ++ [EWorkConnReplaced]) (fst (ustep c st EWorkConnReplaced)) (tr ++ snd (ustep c st EWorkConnReplaced)).
+Proof.
+  unfold order_inv, ufifo. intros Hq [Hold H]. rewrite usent_snoc.
+  destruct st as [ssq srq wsc wcs up crq csq cm crd coq cz ns]. cbn [c_readq c_oldq w_sc s_sendq] in *. subst.
+  cbn [ustep fst snd c_oldq c_readq w_sc s_sendq w_cs c_sendq app]. unfold ubreak_outs. cbn [w_sc w_cs usent flat_map app].
+  split; [reflexivity|]. rewrite app_nil_r.
+  autorewrite with ucnt. cbn [app] in *. rewrite ?app_nil_r.
+  eapply usubseq_trans; [|exact H]. rewrite map_app. sub_solve.
+Qed.
+
+(* the hypothesis of the theorem: whenever the work connection is replaced, nothing is buffered in
+   the readCh of the Forwarder that is being replaced *)
+Definition replaced_when_drained c (h : list uev) : Prop :=
+  forall h1 h2, h = h1 ++ EWorkConnReplaced :: h2 -> c_readq (fst (urun c uinit h1)) = [].
+
+Theorem order_preserved_when_drained c h :
+  replaced_when_drained c h ->
+  usubseq (ubackend (snd (urun c uinit h))) (usent c h).
+Proof.
+  intros Hd.
+  assert (Hi : fst (urun c uinit h) = fst (urun c uinit h) /\ order_inv c h (fst (urun c uinit h)) (snd (urun c uinit h))).
+  { revert Hd.
+    apply (urun_invariant c (fun h st tr => replaced_when_drained c h ->
+                                st = fst (urun c uinit h) /\ order_inv c h st tr)).
+    - intros _. split; [reflexivity|]. split; [reflexivity|]. cbn. apply uss_nil.
+    - intros h0 st tr e IH Hd.
+      assert (Hd0 : replaced_when_drained c h0).
+      { intros h1 h2 E. apply (Hd h1 (h2 ++ [e])). rewrite E, <- app_assoc. reflexivity. }
+      destruct (IH Hd0) as [Est Hinv]. split.
+      + rewrite urun_snoc. cbn [fst]. now rewrite <- Est.
+      + destruct (is_replace e) eqn:Er.
+        * destruct e; try discriminate Er. apply order_step_replace; [|exact Hinv].
+          rewrite Est. apply (Hd h0 []). reflexivity.
+        * now apply order_step. }
+  destruct Hi as [_ [_ Hi]]. eapply usubseq_trans; [|exact Hi].
+  rewrite <- (app_nil_r (ubackend _)) at 1. apply usubseq_app_l. apply usubseq_nil_l.
+Qed.
+
+(* without that hypothesis order is NOT preserved: user a sends "one" then "two"; "one" is still in
+   the old Forwarder's readCh when the connection is replaced; "two" travels over the new
+   connection and overtakes it *)
+Definition reorder_user : uaddr := {| ua_ip := bs "127.0.3.10"; ua_port := 40001; ua_zone := [] |}.
+Definition reorder_history : list uev :=
+  [EWorkConnReplaced; EUserSend reorder_user (bs "one"); ESrvSend; ECliRecv;
+   EWorkConnReplaced; EUserSend reorder_user (bs "two"); ESrvSend; ECliRecv; ECliPump true; EOldPump 0].
+
+Lemma reorder_witness :
+  ubackend (snd (urun {| uc_buf := 1500 |} uinit reorder_history)) =
+    [(Some reorder_user, Some (bs "two")); (Some reorder_user, Some (bs "one"))] /\
+  usent {| uc_buf := 1500 |} reorder_history =
+    [(Some reorder_user, Some (bs "one")); (Some reorder_user, Some (bs "two"))].
+Proof. vm_compute. split; reflexivity. Qed.
+
+Lemma usubseq_length {A} (a b : list A) : usubseq a b -> (length a <= length b)%nat.
+Proof. induction 1; cbn; lia. Qed.
+
+Lemma reorder_not_subseq : ~ usubseq (ubackend (snd (urun {| uc_buf := 1500 |} uinit reorder_history)))
+                                     (usent {| uc_buf := 1500 |} reorder_history).
+Proof.
+  destruct reorder_witness as [-> ->]. intros H.
+  inversion H as [|x l1 l2 H1|x l1 l2 H1]; subst.
+  apply usubseq_length in H1. cbn in H1. lia.
+Qed.
